@@ -72,6 +72,16 @@ CLAIMS = {
             "line reaches the output (pretty) or the hunk buffers plus a final flush dominating Ok (diff), that a passing outcome writes "
             "nothing, and that the structured renderers serialise the whole slice with `result` always present and distinct error kinds.",
             "Not decided: the width arithmetic of Decorator, behaviour on non-UTF-8 lines in the diff renderer (returns Err).", "§4 C19"),
+    "C15": ("Decides who may construct ExecutionError::Skipped (only the two executors, each site under an `exit code == configured skip code` "
+            "guard or in the ExitStatus::Skipped arm; ExitStatus::Skipped itself never constructed), that TestCaseError::Skipped is produced "
+            "only by the test command - for all test cases in the Skipped arm and for the unexecuted remainder in the Timeout arm - that the "
+            "Skipped arm touches only count_skipped and continues, and the skip-code default table.",
+            "Not decided: how a custom code reaches the test case at run time (C16 decides the layering).", "§4 C15"),
+    "C20": ("Decides the concatenation order prepend / document / append (unfiltered) into the single execute_all call per document, that every "
+            "continuing path of the executor loop pushes exactly one Output (Unknown pads the rest; the script executor gates on equal counts), "
+            "that each (test case, output) pair yields exactly one outcome counted once as failed iff validate() is Err or succeeded (detached "
+            "counted separately), and the exit mapping: ValidationFailedError iff count_failed > 0, main 50 / 1 / SUCCESS, no process::exit.",
+            "Not decided: order of documents inside a directory (read_dir order), that bash executes each expression once.", "§4 C20"),
 }
 
 PENDING = "static rules for this property are designed (DESIGN.md §4) but not yet implemented in this revision"
